@@ -99,7 +99,27 @@ static int in_list(const char* n, char** L, int nL) { for (int i = 0; i < nL; i+
 // ---------------------------------------------------------------- base state
 static mjModel* make_model(unsigned long long seed, unsigned feat, int nb, int integ, int enable) {
   mjModel* m;
-  if ((enable >> 20) & 1) {
+  if ((enable >> 21) & 1) {
+    // bit 21: "partial island" scenes: a plane and nb+1 balls on vertical slide joints (one tree each); a random
+    // state puts some of them into contact and leaves the others in flight, so that some dofs belong to no
+    // constraint island while others do, and a previously used receiver had a different subset in contact
+    mjSpec* s = mj_makeSpec();
+    mjsBody* w = mjs_findBody(s, "world");
+    mjsGeom* fl = mjs_addGeom(w, NULL); fl->type = mjGEOM_PLANE; fl->size[0] = 5; fl->size[1] = 5; fl->size[2] = 0.1;
+    mjg_rng r = {seed * 17 + 3};
+    for (int i = 0; i <= nb; i++) {
+      mjsBody* b = mjs_addBody(w, NULL);
+      char nm[16]; snprintf(nm, sizeof nm, "ball%d", i); mjs_setName(b->element, nm);
+      b->pos[0] = 0.5 * i; b->pos[2] = 0.12;
+      mjsJoint* j = mjs_addJoint(b, NULL); j->type = mjJNT_SLIDE; j->axis[0] = 0; j->axis[1] = 0; j->axis[2] = 1;
+      snprintf(nm, sizeof nm, "sl%d", i); mjs_setName(j->element, nm);
+      j->damping[0] = mjg_range(&r, 0, 2);
+      mjsGeom* g = mjs_addGeom(b, NULL); g->type = mjGEOM_SPHERE; g->size[0] = 0.1; g->condim = (i % 2) ? 3 : 1;
+      if (i % 3 == 0) { mjsActuator* a = mjs_addActuator(s, NULL); a->trntype = mjTRN_JOINT; mjs_setString(a->target, nm); }
+    }
+    m = mj_compile(s, NULL);
+    mj_deleteSpec(s);
+  } else if ((enable >> 20) & 1) {
     // bit 20: append multi-input (PID: [pos, vel] controls) actuators so that nu > nactuator and the
     // trailing control entries belong to them (end-to-end runs only)
     mjSpec* s = mjg_spec(seed, feat, nb);
